@@ -510,6 +510,7 @@ pub fn run_sim(cfg: SimCfg, bodies: Vec<Body>) -> SimOutcome {
                         } else {
                             "panic".to_string()
                         };
+                        crate::viol::record("panic", format!("thread {i} panicked: {}", msg.chars().take(300).collect::<String>()));
                         g.panics.push((i, msg));
                     }
                     g.st[i] = St::Done;
